@@ -103,6 +103,24 @@ func (r *Runner) trial(b Batch, plan proxy.Plan, kind string, leaves []Q, o Faul
 	px.SetPlan(proxy.Plan{})
 	// warm: the same instance, caches as the failure left them
 	r.observeAll(leaves, o)
+	// the next request on the same instance: nothing a failed batch left in memory (allocators, counters,
+	// caches) may leak into it
+	if kind != "count" && !o.BigInsert {
+		inBatch := map[int]bool{}
+		for _, p := range b.Pts {
+			inBatch[p.ID] = true
+		}
+		var next []GenPoint
+		for _, id := range r.pickFresh(6) {
+			if !inBatch[id] && len(next) < 3 {
+				next = append(next, r.gen(id, false, 0.9))
+			}
+		}
+		if len(next) > 0 {
+			r.Insert(next)
+			r.observeAll(leaves, o)
+		}
+	}
 	// cold: reopen the file
 	if err := sh.Close(); err != nil {
 		return ops, err
